@@ -182,7 +182,11 @@ func NestingSchema(r *rand.Rand, d int) M {
 		}
 		m := M{}
 		for i := 1 + r.Intn(3); i > 0; i-- {
-			m[Keys[r.Intn(len(Keys))]] = NestingSchema(r, d-1)
+			k := Keys[r.Intn(len(Keys))]
+			if p(0.07) { // member names that would mean something to a formatting function
+				k = []string{"a%sb", "rate%", "%d"}[r.Intn(3)]
+			}
+			m[k] = NestingSchema(r, d-1)
 		}
 		s["properties"] = m
 		if p(0.35) {
